@@ -455,22 +455,52 @@ def split_rules(model, rep, rule_geo, rule_blocks, rule_sub=None):
 
 
 def _modulo(model, rep):
+    """finder of a split cell type: the simplex finder of the split mesh,
+    reduced modulo the number of parent cells - by symbolic run"""
     R2 = "C14-R2"
+    NTP = Poly.sym("nparents")
+
+    class Idx:
+        skv_isarray = True
+
+        def __init__(self, args):
+            self.args = args
+
+        def skv_binop(self, op, other, reflected):
+            if isinstance(op, ast.Mod) and not reflected:
+                return ("mod", self, other)
+            raise Unsupported("arithmetic on the simplex index")
     for modn, clsn, meth, rdn, _ in SPLITS:
-        fn = model.func(modn, f"{clsn}.element_finder")
-        inner = [n for n in nested_functions(fn.node)
-                 if isinstance(n, ast.FunctionDef)]
-        rets = [n for f in inner for n in ast.walk(f)
-                if isinstance(n, ast.Return)]
-        ok = len(rets) == 1 and isinstance(rets[0].value, ast.BinOp) and \
-            isinstance(rets[0].value.op, ast.Mod) and \
-            src(rets[0].value.right) == "self.t.shape[1]"
-        uses = f"self.{meth}().element_finder()" in src(fn.node)
-        _v(rep, R2, ok and uses, f"{clsn}.finder:modulo",
-           f"simplex index of {meth}() taken modulo the number of cells",
-           fn.path, f"{clsn}.element_finder",
-           "the simplex index is not reduced modulo the number of parent "
-           "cells of the split mesh actually searched", fn.lineno)
+        cls = model.cls(modn, clsn)
+        fn = cls.methods["element_finder"]
+        log = []
+
+        def split(a, k, n):
+            log.append(("split", tuple(a), dict(k)))
+            return Obj(None, {"element_finder": PyFunc(
+                lambda a2, k2, n2: PyFunc(lambda a3, k3, n3: Idx(a3)))})
+
+        class TS:
+            def skv_getattr(self, name):
+                if name == "shape":
+                    return (4, NTP)
+                raise Unsupported("t." + name)
+        obj = Obj(cls, {meth: PyFunc(split), "t": TS()})
+        try:
+            it = Interp(model)
+            f = it.call(fn, [], {}, self_obj=obj)
+            r = it.apply(f, ["X", "Y"], {}, fn.node)
+        except (Unsupported, Raised) as e:
+            raise AnalysisError(f"{clsn}.element_finder: {e}")
+        ok = (isinstance(r, tuple) and r[0] == "mod"
+              and isinstance(r[1], Idx) and list(r[1].args) == ["X", "Y"]
+              and Poly.coerce(r[2]) == NTP and len(log) == 1)
+        _v(rep, R2, ok, f"{clsn}.finder:modulo",
+           f"simplex index of {meth}() at the same points, taken modulo "
+           f"the number of parent cells", fn.path,
+           f"{clsn}.element_finder",
+           f"the finder returns {r!r}: not the simplex index of {meth}() "
+           f"reduced modulo the number of parent cells", fn.lineno)
 
 
 def _probes(model, rep):
@@ -588,13 +618,53 @@ def _probes(model, rep):
        "CellBasis.probes", f"matrix shape is {sh}", line)
     fi = model.func("skfem.assembly.basis.cell_basis",
                     "CellBasis.interpolator")
-    s = src(fi.node)
-    _v(rep, R3, "out.reshape(self._base_tensor_order + (x.shape[1],))" in s
-       and "self.probes(x) @ y" in s, "interpolator:reshape",
-       "rows reshaped as (components..., points): row = comp*npts + pt",
-       fi.path, "CellBasis.interpolator",
-       "the probed values are not reshaped as (components..., points)",
-       fi.lineno)
+    # symbolic run: probes(x) @ y has one row per (component, point) in
+    # that order; the interpolator must hand back (components..., points)
+    from .c19 import AxArr
+    bcls = model.cls("skfem.assembly.basis.cell_basis", "CellBasis")
+    for tensor, comp_axes in (((), ()), ((Poly.sym("n_comp"),), ("comp",)),
+                              ((Poly.sym("n_c1"), Poly.sym("n_c2")),
+                               ("c1", "c2"))):
+        class XS:
+            skv_isarray = True
+
+            def skv_getattr(self, name):
+                if name == "shape":
+                    return (2, Poly.sym("n_pt"))
+                raise Unsupported("x." + name)
+        xs = XS()
+
+        class Mat:
+            def skv_binop(self, op, other, reflected):
+                if isinstance(op, ast.MatMult) and not reflected and \
+                        other == "Y":
+                    rows = tuple(comp_axes) + ("pt",)
+                    return AxArr((rows,) if len(rows) > 1 else rows,
+                                 "values")
+                raise Unsupported("matrix product")
+        probed = []
+
+        def probes(a, k, n):
+            probed.append(a[0])
+            return Mat()
+        obj = Obj(bcls, {"probes": PyFunc(probes),
+                         "_base_tensor_order": tensor})
+        try:
+            it = Interp(model)
+            f = it.call(fi, ["Y"], {}, self_obj=obj)
+            r = it.apply(f, [xs], {}, fi.node)
+        except (Unsupported, Raised) as e:
+            raise AnalysisError(f"CellBasis.interpolator: {e}")
+        want = tuple(comp_axes) + ("pt",)
+        ok = isinstance(r, AxArr) and probed and probed[0] is xs and (
+            r.axes == want or (len(want) == 1 and r.axes in (want,
+                                                             (want,))))
+        _v(rep, R3, ok, f"interpolator:reshape[{len(tensor)}-tensor]",
+           f"values come back with axes {want}: row comp*npts + pt of the "
+           f"probing matrix is component comp at point pt", fi.path,
+           "CellBasis.interpolator",
+           f"the probed values come back as {r!r}, not with axes {want}",
+           fi.lineno)
 
 
 def run(model: Model, rep, tier: str) -> None:
